@@ -1,12 +1,14 @@
 (* C13 - base datatype values: acceptance matches HL7 syntax and text is preserved.
    Theorems only; proofs live in Proofs/DatatypesFacts.v (the regex matcher, strptime on exact-length
-   input), Proofs/DatatypesDate.v (DT, TM, DTM) and Proofs/DatatypesNum.v (NM, SI, the factory).
+   input), Proofs/DatatypesDate.v (DT, TM, DTM), Proofs/DatatypesNum.v (NM, SI, the factory) and
+   Proofs/DatatypesNumValue.v (the number an accepted NM / SI value denotes).
    impl_X = what hl7apy computes (Model/Datatypes.v), spec_X = the HL7 grammar; the offset grid, the
    allowed formats and the maximum lengths are the generated Gen/Params.v.
    Model domain: ASCII strings (NM: exponents of at most 18 digits). *)
 From Coq Require Import List Bool NArith ZArith Init.Byte.
 From HL7 Require Import Lib.Str Model.Ec Model.Result Model.Escape Model.Datatypes
-  Proofs.EscapeFacts Proofs.DatatypesFacts Proofs.DatatypesDate Proofs.DatatypesNum Gen.Params.
+  Proofs.EscapeFacts Proofs.DatatypesFacts Proofs.DatatypesDate Proofs.DatatypesNum Proofs.DatatypesNumValue
+  Gen.Params.
 Import ListNotations.
 Open Scope bs_scope.
 
@@ -179,6 +181,21 @@ Proof.
 Qed.
 Print Assumptions C13_roundtrip_SI.
 
+(* "numerics: to the same number", for EVERY accepted SI text (signs, blanks, underscores and leading zeros
+   included): the encoded text is the canonical decimal numeral str(z) of the integer z = int(s) the input
+   denotes (int_value: sign * value of the digits, -0 = 0), it denotes z again and int() maps it to itself.
+   s <> []: the empty string is "no value" (SI() is built, nothing is parsed). *)
+Theorem C13_SI_same_number : forall strict ml s e,
+  s <> [] -> impl_SI strict ml s = Ok e ->
+  exists z, int_value s = Some z /\ e = Z_to_str z /\ int_value e = Some z /\ int_parse e = Some e.
+Proof. exact SI_same_number. Qed.
+Print Assumptions C13_SI_same_number.
+
+(* int_value is the obvious reading of a digit string *)
+Theorem C13_SI_value_plain : forall s, spec_SI s = true -> int_value s = Some (Z.of_N (digits_val s)).
+Proof. exact int_value_spec. Qed.
+Print Assumptions C13_SI_value_plain.
+
 (* ---- NM ---- *)
 
 Definition C13_accept_NM_statement : Prop :=
@@ -230,6 +247,67 @@ Theorem C13_roundtrip_NM : forall strict ml s e,
   plain_NM s = true -> nm_small s = false -> impl_NM strict ml s = Ok e -> e = s.
 Proof. exact roundtrip_NM_plain. Qed.
 Print Assumptions C13_roundtrip_NM.
+
+(* "numerics: to the same number", for EVERY accepted NM text - scientific notation on the way out
+   ('0.0000001' -> '1E-7', '1e5' -> '1E+5'), signs, '+', leading and trailing zeros, exponents, blanks and
+   underscores included.  Exact form: str(Decimal) is lossless, the encoded text reads back as the very same
+   decimal record - same sign (-0 stays -0), same coefficient digits (trailing zeros kept), same exponent
+   (0E+3 stays 0E+3); for NaN / sNaN / Infinity (finding F10) same sign, kind and payload.
+   No bound on the exponent is needed in the model (exponents are unbounded integers there; CPython limits
+   them to 18 digits, which is where the model's claim of fidelity stops).
+   s <> []: the empty string is "no value" (NM() is built, nothing is parsed). *)
+Theorem C13_NM_reparse_exact : forall strict ml s e,
+  s <> [] -> impl_NM strict ml s = Ok e ->
+  exists d, decimal_parse s = Some d /\ e = decimal_str d /\ decimal_parse e = Some d.
+Proof. exact NM_reparse_exact. Qed.
+Print Assumptions C13_NM_reparse_exact.
+
+(* numerical form: dec_same_number compares sign * coefficient * 10^exponent (scaled to the smaller
+   exponent, so it is stated over Z); every zero is the same number; special values are the same when they
+   print the same *)
+Theorem C13_NM_same_number : forall strict ml s e,
+  s <> [] -> impl_NM strict ml s = Ok e ->
+  exists d d', decimal_parse s = Some d /\ decimal_parse e = Some d' /\ dec_same_number d d'.
+Proof. exact NM_same_number. Qed.
+Print Assumptions C13_NM_same_number.
+
+(* finite values: the same (signed coefficient, exponent) pair *)
+Theorem C13_NM_same_value : forall strict ml s e d,
+  s <> [] -> impl_NM strict ml s = Ok e -> decimal_parse s = Some d -> finite_dec d = true ->
+  exists c x, dec_value d = Some (c, x) /\
+    exists d', decimal_parse e = Some d' /\ finite_dec d' = true /\ dec_value d' = Some (c, x).
+Proof. exact NM_same_value. Qed.
+Print Assumptions C13_NM_same_value.
+
+(* the special values are not numbers: they are encoded to text that reads back as the same special value *)
+Theorem C13_NM_special_reparse : forall strict ml s e t,
+  s <> [] -> impl_NM strict ml s = Ok e -> decimal_parse s = Some (DSpecial t) ->
+  e = t /\ decimal_parse e = Some (DSpecial t).
+Proof. exact NM_special_reparse. Qed.
+Print Assumptions C13_NM_special_reparse.
+
+(* dec_same_number is an equivalence, decided by dec_same_numberb *)
+Theorem C13_same_number_equivalence :
+  (forall d, dec_same_number d d) /\
+  (forall d d', dec_same_number d d' -> dec_same_number d' d) /\
+  (forall d1 d2 d3, dec_same_number d1 d2 -> dec_same_number d2 d3 -> dec_same_number d1 d3) /\
+  (forall d d', dec_same_numberb d d' = true <-> dec_same_number d d').
+Proof.
+  split; [exact dec_same_number_refl|]. split; [exact dec_same_number_sym|].
+  split; [exact dec_same_number_trans|exact dec_same_numberb_spec].
+Qed.
+Print Assumptions C13_same_number_equivalence.
+
+(* dec_value is the obvious reading of text over the HL7 alphabet: [+-]ip[.fp] is +-(ip fp) * 10^-|fp| *)
+Theorem C13_NM_value_plain : forall s d,
+  forallb nm_clean s = true -> decimal_parse s = Some d ->
+  match split_on (is_c c_dot) (snd (take_sign s)) with
+  | (ip, fo) =>
+      let fp := match fo with Some x => x | None => [] end in
+      dec_value d = Some (dec_signed (fst (take_sign s)) (ip ++ fp), (- Z.of_nat (length fp))%Z)
+  end.
+Proof. exact NM_value_plain. Qed.
+Print Assumptions C13_NM_value_plain.
 
 (* ---- both levels, maximum length ---- *)
 
@@ -315,6 +393,32 @@ Example C13_ex_NM : impl_NM true (Some 16%Z) ("-12.50" : bs) = Ok (unbs "-12.50"
                     nm_small ("-12.50" : bs) = false /\ nm_small ("0.0000001" : bs) = true /\
                     impl_NM true (Some 16%Z) ("0.000001" : bs) = Ok (unbs "0.000001") /\
                     impl_NM true (Some 16%Z) ("12345678901234567" : bs) = Err (HL7 EMaxLengthReached).
+Proof. vm_compute. auto 10. Qed.
+(* the number clause on the notations str(Decimal) changes: (input, encoded text, sign, coefficient, exponent) *)
+Definition nm_reparse_case (s e : bs) (neg : bool) (coeff : bs) (x : Z) : bool :=
+  match impl_NM true (Some 16%Z) s, decimal_parse s, decimal_parse e with
+  | Ok o, Some (DFin n c y), Some d' =>
+      streqb o e && Bool.eqb n neg && streqb c coeff && Z.eqb y x && dec_same_numberb (DFin n c y) d' &&
+      match d' with DFin n' c' y' => Bool.eqb n' neg && streqb c' coeff && Z.eqb y' x | _ => false end
+  | _, _, _ => false
+  end.
+Example C13_ex_NM_number :
+  nm_reparse_case "0.0000001" "1E-7" false "1" (-7) && nm_reparse_case "1e5" "1E+5" false "1" 5 &&
+  nm_reparse_case "-0012.500" "-12.500" true "12500" (-3) && nm_reparse_case "+.5" "0.5" false "5" (-1) &&
+  nm_reparse_case "5." "5" false "5" 0 && nm_reparse_case "0E+3" "0E+3" false "0" 3 &&
+  nm_reparse_case "-0.00" "-0.00" true "0" (-2) && nm_reparse_case " 1_0e-1_0 " "1.0E-9" false "10" (-10) = true /\
+  impl_NM true (Some 16%Z) ("-nan012" : bs) = Ok (unbs "-NaN12") /\
+  decimal_parse ("-NaN12" : bs) = decimal_parse ("-nan012" : bs) /\
+  dec_same_numberb (DFin false "10" (-1)) (DFin false "1" 0) = true /\
+  dec_same_numberb (DFin true "0" 0) (DFin false "0" 3) = true /\
+  dec_same_numberb (DFin false "1" 0) (DFin false "1" 1) = false /\
+  dec_same_numberb (DFin false "1" 0) (DFin true "1" 0) = false.
+Proof. vm_compute. auto 10. Qed.
+Example C13_ex_SI_number :
+  impl_SI true (Some 4%Z) (" +0_07 " : bs) = Ok (unbs "7") /\ int_value (" +0_07 " : bs) = Some 7%Z /\
+  Z_to_str 7 = unbs "7" /\ impl_SI true (Some 4%Z) ("-00" : bs) = Ok (unbs "0") /\ int_value ("-00" : bs) = Some 0%Z /\
+  impl_SI true (Some 4%Z) ("-1_2" : bs) = Ok (unbs "-12") /\ int_value ("-1_2" : bs) = Some (-12)%Z /\
+  Z_to_str (-12) = unbs "-12" /\ int_parse ("-12" : bs) = Some (unbs "-12").
 Proof. vm_compute. auto 10. Qed.
 Example C13_ex_factory :
   factory "2.5" TOLERANT "DT" default_ec ("2020|13" : bs) = Ok (true, unbs "2020\F\13") /\
